@@ -163,7 +163,7 @@ def run_case(case):
         # ---- dry run
         dry = os.path.join(d, "dry")
         shutil.copytree(basep, dry)
-        fs = FaultFS()
+        fs = FaultFS(count_reads=True)
         existing = {os.path.relpath(p, basep) for p in _data_files(basep)}
         err = None
         try:
@@ -214,12 +214,15 @@ def run_case(case):
             plan.append((k, False))
             if events[k - 1][0] == "write" and (case.get("mode") in (None, "partial")):
                 plan.append((k, True))
+            if events[k - 1][0] == "write" and (case.get("mode") in (None, "persist")):
+                # the fault does not go away: every later write fails as well (a full disk), opens still succeed
+                plan.append((k, "persist"))
             if events[k - 1][0] == "close" and (case.get("mode") in (None, "lost")):
                 # the close fails and what was written since the open is lost (upload on close, failed final flush)
                 plan.append((k, "lost"))
         if case.get("mode") == "raise":
             plan = [(k, p) for k, p in plan if not p]
-        elif case.get("mode") in ("partial", "lost") and case.get("k") is not None:
+        elif case.get("mode") in ("partial", "lost", "persist") and case.get("k") is not None:
             plan = [(k, p) for k, p in plan if p]
         sub_nt = []
         n_exec = 0
@@ -228,7 +231,8 @@ def run_case(case):
             if os.path.exists(run):
                 shutil.rmtree(run)
             shutil.copytree(basep, run)
-            fsk = FaultFS(fail_at=k, partial=partial is True, lose_on_close=partial == "lost")
+            fsk = FaultFS(fail_at=k, partial=partial is True, lose_on_close=partial == "lost", persist=partial == "persist",
+                          count_reads=True)
             raised = None
             try:
                 _append(run, df1, case, fsk)
@@ -237,7 +241,7 @@ def run_case(case):
             finally:
                 fsk.close_all()
             n_exec += 1
-            mode = "lost" if partial == "lost" else "partial" if partial else "raise"
+            mode = partial if partial in ("lost", "persist") else "partial" if partial else "raise"
             kind = events[k - 1][0]
             tag = "k=%d/%d %s %s" % (k, kmeta - 1, kind, mode)
             if len(fsk.events) < k:
